@@ -166,6 +166,25 @@ fn build_g(g: &G) -> Condition {
     c
 }
 
+/// The condition handed to a join / CASE WHEN: a lone group is passed as it is (its own polarity is then
+/// the top-level one), anything else is folded into one `all` group.
+fn direct_or_folded(calls: &[Call]) -> Condition {
+    if let [Call::CondWhere(g)] = calls {
+        if crate::apply::route(3) != 0 {
+            return build_g(g);
+        }
+    }
+    let mut cond = Condition::all();
+    for c in calls {
+        cond = match c {
+            Call::CondWhere(g) => cond.add(build_g(g)),
+            Call::AndWhere(a, f) => cond.add(leaf_expr(*a, *f)),
+            Call::AndWhereOption(o) => cond.add_option(o.map(|(a, f)| leaf_expr(a, f))),
+        };
+    }
+    cond
+}
+
 fn show_g(g: &G) -> String {
     let ms: Vec<String> = g
         .members
@@ -372,32 +391,28 @@ fn run_ctx(fx: &Fix, cx: Ctxt, calls: &[Call], inline: bool) -> Result<(String, 
             Ok((sql.clone(), ids(exec(&sql, &v)?)))
         }
         Ctxt::JoinOn => {
-            let mut cond = Condition::all();
-            for c in calls {
-                cond = match c {
-                    Call::CondWhere(g) => cond.add(build_g(g)),
-                    Call::AndWhere(a, f) => cond.add(leaf_expr(*a, *f)),
-                    Call::AndWhereOption(o) => cond.add_option(o.map(|(a, f)| leaf_expr(a, f))),
-                };
-            }
+            let cond = direct_or_folded(calls);
             let mut s = Query::select();
-            s.column((tv(), id())).from(Alias::new("one")).join(JoinType::InnerJoin, tv(), cond);
+            // SQLite gives CROSS JOIN .. ON the meaning of INNER JOIN .. ON
+            match crate::apply::route(4) {
+                0 => s.column((tv(), id())).from(Alias::new("one")).join(JoinType::CrossJoin, tv(), cond),
+                1 => s.column((tv(), id())).from(Alias::new("one")).inner_join(tv(), cond),
+                _ => s.column((tv(), id())).from(Alias::new("one")).join(JoinType::InnerJoin, tv(), cond),
+            };
             let (sql, v) = render(&s);
             Ok((sql.clone(), ids(exec(&sql, &v)?)))
         }
         Ctxt::CaseWhen => {
-            let mut cond = Condition::all();
-            for c in calls {
-                cond = match c {
-                    Call::CondWhere(g) => cond.add(build_g(g)),
-                    Call::AndWhere(a, f) => cond.add(leaf_expr(*a, *f)),
-                    Call::AndWhereOption(o) => cond.add_option(o.map(|(a, f)| leaf_expr(a, f))),
-                };
-            }
+            let cond = direct_or_folded(calls);
             let mut s = Query::select();
-            s.column(id())
-                .expr(CaseStatement::new().case(cond, 1).finally(0))
-                .from(tv());
+            // the condition decides between 1 and "not 1": ELSE 0, no ELSE (NULL), or a second,
+            // always-true branch after it
+            let case = match crate::apply::route(4) {
+                0 => CaseStatement::new().case(cond, 1),
+                1 => CaseStatement::new().case(cond, 1).case(Condition::all(), 2).finally(0),
+                _ => CaseStatement::new().case(cond, 1).finally(0),
+            };
+            s.column(id()).expr(case).from(tv());
             let (sql, v) = render(&s);
             let rows = exec(&sql, &v)?;
             let mut out: Vec<i64> = rows
